@@ -172,6 +172,10 @@ func Oracle(c *Case, o *Obs) (class, what string) {
 	}
 	if o.DoCalls == 0 {
 		if kind == "query" || (kind == "mutation" && c.Method == "POST") {
+			// the textual gate looks at the first keyword of the text, not at the selected operation
+			if _, first := selectedKind(c); first != kind && errClass(o.Err) != "Other" {
+				return "C11/refused-allowed-kind/first-operation-is-not-the-selected-one", fmt.Sprintf("%s client refused a %s because the document's FIRST operation is a %s: %s", c.Method, kind, first, o.Err)
+			}
 			return "C11/refused-allowed-kind", fmt.Sprintf("%s client refused a %s: %s", c.Method, kind, o.Err)
 		}
 		if kind == "" && errClass(o.Err) != "" && errClass(o.Err) != "Other" {
